@@ -23,8 +23,9 @@ INP2 = (
     ("scaffold_3", (("F", "scaffold_3", 1, 2, 1),)),
 )
 INP3 = (
-    ("HAP1_SCAFFOLD_1", (("F", "HAP1_SCAFFOLD_1", 1, 30, 1),)),
-    ("HAP2_SCAFFOLD_2", (("F", "HAP2_SCAFFOLD_2", 1, 28, 1),)),
+    # (two contigs each, so that every haplotype has input junctions and gets its own row in info.yaml)
+    ("HAP1_SCAFFOLD_1", (("F", "HAP1_SCAFFOLD_1", 1, 14, 1), ("G", 2, "scaffold"), ("F", "HAP1_SCAFFOLD_1", 17, 30, 1))),
+    ("HAP2_SCAFFOLD_2", (("F", "HAP2_SCAFFOLD_2", 1, 12, 1), ("G", 4, "scaffold"), ("F", "HAP2_SCAFFOLD_2", 17, 28, 1))),
     ("HAP1_SCAFFOLD_3", (("F", "HAP1_SCAFFOLD_3", 1, 12, 1),)),
     ("HAP2_SCAFFOLD_4", (("F", "HAP2_SCAFFOLD_4", 1, 14, 1),)),
 )
